@@ -89,6 +89,8 @@ class Ctx:
         return f"decide ({self.num(left)} {sym} {self.num(right)})"
 
     # -- statements: Bool expression "completes without raising"
+    allow_return = False     # `return` = the statements complete without raising
+
     def stmts(self, body, stop=None):
         if not body:
             return "true"
@@ -97,6 +99,8 @@ class Ctx:
             return "true"
         if isinstance(s, ast.Raise):
             return "false"
+        if self.allow_return and isinstance(s, ast.Return):
+            return "true"
         if isinstance(s, ast.Expr) and isinstance(s.value, ast.Constant) and isinstance(s.value.value, str):
             return self.stmts(rest, stop)           # docstring
         if isinstance(s, ast.Expr) and isinstance(s.value, ast.Call) and ast.unparse(s.value).startswith(("super(", "logger.")):
@@ -106,8 +110,13 @@ class Ctx:
         if isinstance(s, ast.If):
             a, b = self.stmts(s.body, stop), self.stmts(s.orelse, stop)
             r = self.stmts(rest, stop)
-            a = r if a == "true" else ("false" if a == "false" else f"({a} && {r})")
-            b = r if b == "true" else ("false" if b == "false" else f"({b} && {r})")
+
+            def ends_in_return(blk):
+                return self.allow_return and bool(blk) and isinstance(blk[-1], ast.Return)
+            if not ends_in_return(s.body):
+                a = r if a == "true" else ("false" if a == "false" else f"({a} && {r})")
+            if not ends_in_return(s.orelse):
+                b = r if b == "true" else ("false" if b == "false" else f"({b} && {r})")
             return f"(if {self.cond(s.test)} then {a} else {b})"
         self.bad(s, "statement kind")
 
@@ -151,6 +160,139 @@ def _strdict(v, what):
             and all(isinstance(x, ast.Constant) and isinstance(x.value, str) for x in v.values):
         return [(k.value, x.value) for k, x in zip(v.keys, v.values)]
     raise Untranslatable(f"{what} is not a literal dict of strings")
+
+
+PREDICT_LIKE = ("predict", "predict_proba", "predict_log_proba", "decision_function", "_pmf_predict", "transform", "_raw_predict")
+PREDICT_CLASSES = [
+    ("ThresholdOptimizer", "fairlearn/postprocessing/_threshold_optimizer.py"),
+    ("InterpolatedThresholder", "fairlearn/postprocessing/_interpolated_thresholder.py"),
+    ("ExponentiatedGradient", "fairlearn/reductions/_exponentiated_gradient/exponentiated_gradient.py"),
+    ("GridSearch", "fairlearn/reductions/_grid_search/grid_search.py"),
+    ("CorrelationRemover", "fairlearn/preprocessing/_correlation_remover.py"),
+    ("_AdversarialFairness", "fairlearn/adversarial/_adversarial_mitigation.py"),
+]
+
+
+def _predict_guards(repo):
+    """(class, method, guarded): the first statement of every prediction entry point is `check_is_fitted(self, ..)`, or a
+    statement whose first call is a same-class method that is guarded in this sense"""
+    out = []
+    for cls, rel in PREDICT_CLASSES:
+        tree = _parse(repo, rel)
+        methods = {}
+        for n in tree.body:
+            if isinstance(n, ast.ClassDef) and n.name == cls:
+                methods = {m.name: m for m in n.body if isinstance(m, ast.FunctionDef)}
+        if not methods:
+            raise Untranslatable(f"{rel}: class {cls} not found")
+
+        def first_stmt(fn):
+            for st in fn.body:
+                if isinstance(st, ast.Expr) and isinstance(st.value, ast.Constant) and isinstance(st.value.value, str):
+                    continue
+                return st
+            return None
+
+        def guarded(name, seen=()):
+            if name in seen or name not in methods:
+                return False
+            st = first_stmt(methods[name])
+            if st is None or isinstance(st, (ast.If, ast.For, ast.While, ast.Try, ast.With)):
+                return False
+            calls = [c for c in ast.walk(st) if isinstance(c, ast.Call)]
+            if not calls:
+                return False
+            # the call evaluated first = the innermost-leftmost one; accept only the simple shapes
+            if isinstance(st, ast.Expr) and isinstance(st.value, ast.Call) and ast.unparse(st.value.func) == "check_is_fitted" \
+                    and st.value.args and ast.unparse(st.value.args[0]) == "self":
+                return True
+            val = st.value if isinstance(st, (ast.Assign, ast.Return, ast.Expr)) else None
+            if isinstance(val, ast.Call) and isinstance(val.func, ast.Attribute) and ast.unparse(val.func.value) == "self" \
+                    and not any(isinstance(c, ast.Call) for a in list(val.args) + [k.value for k in val.keywords] for c in ast.walk(a)):
+                return guarded(val.func.attr, seen + (name,))
+            return False
+        found = [m for m in PREDICT_LIKE if m in methods]
+        if not found:
+            raise Untranslatable(f"{rel}: {cls} has no prediction entry point")
+        for m in found:
+            out.append((cls, m, guarded(m)))
+    return out
+
+
+def _frame_function_checks(repo):
+    """MetricFrame._get_annotated_metric_functions (up to the loop over the metric dict) and the first guard of
+    _construct_annotated_metric_function, as Bool expressions `true = no exception`"""
+    mf = _parse(repo, "fairlearn/metrics/_metric_frame.py")
+    fn = _method(mf, "MetricFrame", "_get_annotated_metric_functions")
+    txt = {ast.unparse(st) for st in ast.walk(fn) if isinstance(st, ast.Assign)}
+    for need in ("sample_params = sample_params or {}", "sample_params_keys = set(sample_params.keys())",
+                 "metric_functions_keys = set(metric.keys())"):
+        if need not in txt:
+            raise Untranslatable(f"_get_annotated_metric_functions: `{need}` not found")
+    ctx = Ctx("MetricFrame._get_annotated_metric_functions",
+              optvars={"sample_params": "sample_params_given"},
+              atoms={"isinstance(sample_params, dict)": "sample_params_is_dict", "isinstance(metric, dict)": "metric_is_dict",
+                     "sample_params_keys.issubset(metric_functions_keys)": "keys_subset"})
+    ctx.allow_return = True
+    loops = [st for st in fn.body if isinstance(st, ast.For)]
+    if len(loops) != 1 or ast.unparse(loops[0].iter) != "metric.items()":
+        raise Untranslatable("_get_annotated_metric_functions: expected one loop over metric.items()")
+    inner_calls = [c for c in ast.walk(loops[0]) if isinstance(c, ast.Call) and ast.unparse(c.func) == "self._construct_annotated_metric_function"]
+    if len(inner_calls) != 1:
+        raise Untranslatable("_get_annotated_metric_functions: the loop does not construct one annotated function per metric")
+    kw = {k.arg: ast.unparse(k.value) for k in inner_calls[0].keywords}
+    if kw.get("sample_params") != "associated_sample_params" or \
+            "associated_sample_params = sample_params.get(name, {})" not in {ast.unparse(st) for st in loops[0].body}:
+        raise Untranslatable("_get_annotated_metric_functions: per-metric sample_params are not sample_params.get(name, {})")
+    prefix = ctx.stmts(fn.body, lambda st: isinstance(st, ast.For))
+    inner = _method(mf, "MetricFrame", "_construct_annotated_metric_function")
+    ictx = Ctx("MetricFrame._construct_annotated_metric_function", atoms={"isinstance(sample_params, dict)": "params_is_dict"})
+    first_if = [st for st in inner.body if not (isinstance(st, ast.Expr) and isinstance(st.value, ast.Constant))][:1]
+    if not first_if or not isinstance(first_if[0], ast.If):
+        raise Untranslatable("_construct_annotated_metric_function: no leading type check of sample_params")
+    inner_ok = ictx.stmts(first_if)
+    return prefix, inner_ok
+
+
+def _to_predict_checks(repo):
+    """InterpolatedThresholder._pmf_predict: check_is_fitted first, then _validate_and_reformat_input(X, y=<base
+    predictions>, sensitive_features=sensitive_features, expect_y=.., enforce_binary_labels=..); ThresholdOptimizer.predict /
+    _pmf_predict delegate to it after their own check_is_fitted"""
+    it = _parse(repo, "fairlearn/postprocessing/_interpolated_thresholder.py")
+    fn = _method(it, "InterpolatedThresholder", "_pmf_predict")
+    calls = [c for c in ast.walk(fn) if isinstance(c, ast.Call) and ast.unparse(c.func) == "_validate_and_reformat_input"]
+    if len(calls) != 1:
+        raise Untranslatable("InterpolatedThresholder._pmf_predict: expected one _validate_and_reformat_input call")
+    c = calls[0]
+    kw = {k.arg: ast.unparse(k.value) for k in c.keywords}
+    if [ast.unparse(a) for a in c.args] != ["X"] or kw.get("sensitive_features") != "sensitive_features" or kw.get("y") != "base_predictions":
+        raise Untranslatable("InterpolatedThresholder._pmf_predict: arguments of _validate_and_reformat_input changed")
+    for k in ("expect_y", "enforce_binary_labels", "expect_sensitive_features"):
+        if k in kw and kw[k] not in ("True", "False"):
+            raise Untranslatable(f"InterpolatedThresholder._pmf_predict: {k} is not a literal")
+    uv = _parse(repo, "fairlearn/utils/_input_validation.py")
+    vf = _func(uv, "_validate_and_reformat_input")
+    dflt = {}
+    args = vf.args
+    for a, d in zip(reversed(args.args), reversed(args.defaults)):
+        dflt[a.arg] = ast.unparse(d)
+    for a, d in zip(args.kwonlyargs, args.kw_defaults):
+        if d is not None:
+            dflt[a.arg] = ast.unparse(d)
+    expect_sf = kw.get("expect_sensitive_features", dflt.get("expect_sensitive_features"))
+    expect_y = kw.get("expect_y", dflt.get("expect_y"))
+    enforce = kw.get("enforce_binary_labels", dflt.get("enforce_binary_labels"))
+    if expect_sf not in ("True", "False") or expect_y not in ("True", "False") or enforce not in ("True", "False"):
+        raise Untranslatable("_validate_and_reformat_input: defaults of expect_* / enforce_binary_labels are not literals")
+    to = _parse(repo, "fairlearn/postprocessing/_threshold_optimizer.py")
+    deleg = True
+    for m in ("predict", "_pmf_predict"):
+        body = [st for st in _method(to, "ThresholdOptimizer", m).body
+                if not (isinstance(st, ast.Expr) and isinstance(st.value, ast.Constant))]
+        if len(body) != 2 or ast.unparse(body[0]) != "check_is_fitted(self)" or not isinstance(body[1], ast.Return) \
+                or not ast.unparse(body[1].value).startswith(f"self.interpolated_thresholder_.{m}(X, sensitive_features=sensitive_features"):
+            deleg = False
+    return expect_sf == "True", expect_y == "True", enforce == "True", deleg
 
 
 @translate.lifter
@@ -222,6 +364,10 @@ def validation_tables(repo):
                       "selection_rule == TRADEOFF_OPTIMIZATION": "selection_rule_ok"})
     grid = gctx.stmts(_method(gs, "GridSearch", "__init__").body)
 
+    guards = _predict_guards(repo)
+    frame_prefix, frame_inner = _frame_function_checks(repo)
+    tp_sf, tp_y, tp_bin, tp_deleg = _to_predict_checks(repo)
+
     def slist(xs):
         return "[" + ", ".join(lstr(x) for x in xs) + "]"
     src = f"""/- GENERATED by harness/lifters/validation_tables.py from the fairlearn working tree. Do not edit. -/
@@ -260,8 +406,30 @@ def errorRateCtor (costs_given costs_is_dict costs_keys_ok : Bool) (costs_fp cos
 def gridSearchCtor (constraints_is_moment selection_rule_ok : Bool) (constraint_weight : Rat) : Bool :=
   {grid}
 
+/-- every prediction entry point (class, method): does it start with `check_is_fitted(self, ..)` (directly, or through a
+    same-class method called first)? -/
+def predictGuards : List (String × String × Bool) :=
+  [{", ".join(f"({lstr(c)}, {lstr(m)}, {'true' if g else 'false'})" for c, m, g in guards)}]
+
+/-- `MetricFrame._get_annotated_metric_functions` before the loop over the metric dict: true = no exception -/
+def frameFunctionsPrefix (sample_params_given sample_params_is_dict metric_is_dict keys_subset : Bool) : Bool :=
+  {frame_prefix}
+/-- `MetricFrame._construct_annotated_metric_function`: the leading type check of the (per-metric) sample_params -/
+def frameInnerParamsOk (params_is_dict : Bool) : Bool :=
+  {frame_inner}
+
+/-- `InterpolatedThresholder._pmf_predict` -> `_validate_and_reformat_input(X, y=base_predictions, sensitive_features=..)`:
+    the effective expect_sensitive_features / expect_y / enforce_binary_labels -/
+def toPredictExpectsSf : Bool := {'true' if tp_sf else 'false'}
+def toPredictExpectsY : Bool := {'true' if tp_y else 'false'}
+def toPredictEnforcesBinary : Bool := {'true' if tp_bin else 'false'}
+/-- `ThresholdOptimizer.predict` / `_pmf_predict` = `check_is_fitted(self)` then the same method of the fitted thresholder -/
+def toPredictDelegates : Bool := {'true' if tp_deleg else 'false'}
+
 end Generated.ValidationTables
 """
     meta = {"simple_constraints": len(simple), "objectives_simple": len(obj_s), "objectives_eo": len(obj_e),
-            "metric_dict_keys": len(md_keys), "to_enforces_binary": enforce}
+            "metric_dict_keys": len(md_keys), "to_enforces_binary": enforce,
+            "predict_guards": {f"{c}.{m}": g for c, m, g in guards}, "frame_functions_prefix": frame_prefix,
+            "to_predict": {"expect_sf": tp_sf, "expect_y": tp_y, "enforce_binary": tp_bin, "delegates": tp_deleg}}
     return "ValidationTables.lean", src, meta
